@@ -523,6 +523,12 @@ namespace occa {
           return false;
         }
       }
+      else if (!onlyUnary) {
+        // a - -b, a * !b
+        // After an operand, + - * & are binary
+        //   whatever follows them
+        return false;
+      }
 
       const bool nextTokenIsOp = (
         state.nextToken->getOpType() & (operatorType::unary |
